@@ -1076,7 +1076,7 @@ class Processor:
                         " list.")
                     return
 
-                for eleidx, element in enumerate(data):
+                for eleidx, element in enumerate(list(data)):
                     next_translated_path = translated_path + "[{}]".format(
                         eleidx)
                     next_ancestry = ancestry + [(data, eleidx)]
@@ -1092,7 +1092,7 @@ class Processor:
                         yield node_coord
 
         elif isinstance(data, (set, CommentedSet)):
-            for ele in data:
+            for ele in list(data):
                 ele_val = ele.value if isinstance(ele, TaggedScalar) else ele
                 if ele_val == stripped_attrs:
                     self.logger.debug((
@@ -1270,7 +1270,7 @@ class Processor:
             .format(stripped_attrs))
 
         if isinstance(data, list):
-            for lstidx, ele in enumerate(data):
+            for lstidx, ele in enumerate(list(data)):
                 if (hasattr(ele, "anchor")
                         and stripped_attrs == ele.anchor.value):
                     yield NodeCoords(ele, data, lstidx, next_translated_path,
@@ -1423,7 +1423,7 @@ class Processor:
 
             is_aoh = Nodes.node_is_aoh(data, accept_nulls=True)
             search_keys = attr == '.'
-            for lstidx, ele in enumerate(data):
+            for lstidx, ele in enumerate(list(data)):
                 if search_keys:
                     # pylint: disable=locally-disabled,consider-using-ternary
                     matches = ((is_aoh and ele is not None and term in ele)
@@ -1963,7 +1963,7 @@ class Processor:
                             data=node_coord)
                         yield node_coord
             elif isinstance(data, (CommentedSeq, list)):
-                for idx, ele in enumerate(data):
+                for idx, ele in enumerate(list(data)):
                     next_translated_path = translated_path + "[{}]".format(idx)
                     next_ancestry = ancestry + [(data, idx)]
                     for node_coord in self._get_nodes_by_traversal(
@@ -1979,7 +1979,7 @@ class Processor:
                         yield node_coord
             elif isinstance(data, (CommentedSet, set)):
                 # Sets cannot be traversed; they cannot have complex children
-                for ele in data:
+                for ele in list(data):
                     next_translated_path = (
                         translated_path + YAMLPath.escape_path_section(
                             ele, translated_path.separator))
@@ -2053,7 +2053,7 @@ class Processor:
                             data=node_coord.node)
                         yield node_coord
             elif isinstance(data, list):
-                for idx, ele in enumerate(data):
+                for idx, ele in enumerate(list(data)):
                     self.logger.debug(
                         "Processor::_get_nodes_by_traversal:  Recursing into"
                         " INDEX '{}' at ref '{}' for next-segment matches..."
@@ -2126,7 +2126,7 @@ class Processor:
             return
 
         if isinstance(data, (CommentedSeq, list)):
-            for idx, ele in enumerate(data):
+            for idx, ele in enumerate(list(data)):
                 next_translated_path = translated_path + f"[{idx}]"
                 next_ancestry = ancestry + [(data, idx)]
                 self.logger.debug(
@@ -2137,7 +2137,7 @@ class Processor:
             return
 
         if isinstance(data, (CommentedSet, set)):
-            for ele in data:
+            for ele in list(data):
                 next_translated_path = (
                     translated_path + YAMLPath.escape_path_section(
                         ele, translated_path.separator))
@@ -2226,7 +2226,7 @@ class Processor:
             return
 
         if isinstance(data, list):
-            for idx, ele in enumerate(data):
+            for idx, ele in enumerate(list(data)):
                 self.logger.debug(
                     f"Recursing into INDEX '{idx}' at ref '{parentref}' for"
                     " next-segment matches...", prefix=dbg_prefix)
